@@ -122,6 +122,10 @@ def shard(ctx, k, payload):
         if data.draw(st.integers(0, 2)) == 0:
             # several payers with enough interest/dividends for Schedule B (per-payer listing lines)
             p.update(n_int=data.draw(st.sampled_from([2, 3])), n_div=data.draw(st.sampled_from([0, 2])), big_interest=True, amount_bias='large')
+        if data.draw(st.integers(0, 5)) == 0:
+            # state withholding on statements of both spouses (NC lines 20a/20b walk every payer statement)
+            p.update(forms=['1040', 'nc_d-400'], status='MarriedFilingJointly', n_r=data.draw(st.sampled_from([2, 3])), both_spouses_1099r=True,
+                     nc_withholding=True, n_1098=max(1, p['n_1098']), ira='none')
         sc, base = scenario.build(p, data.draw)
         if base.exc is not None or not base.verdict:
             ctx.count('base_not_solved')
